@@ -9,6 +9,20 @@ from .sv import *
 from .state import State, Obligation
 
 
+def _has_quant(f):
+    stack, seen = [f], set()
+    while stack:
+        x = stack.pop()
+        if x.get_id() in seen:
+            continue
+        seen.add(x.get_id())
+        if z3.is_quantifier(x):
+            return True
+        if z3.is_app(x):
+            stack.extend(x.children())
+    return False
+
+
 class Stmts:
     def exec_block(self, stmts, st: State):
         outs = [('fall', None, st)]
@@ -186,10 +200,25 @@ class Stmts:
                 return self.exec_block(node.body, s)
             if z3.is_false(tvs):
                 return self.exec_block(node.orelse, s)
-            a = self.exec_block(node.body, s.fork().add(tv))
-            b = self.exec_block(node.orelse, s.fork().add(z3.Not(tv)))
+            sa, sb = s.fork().add(tv), s.fork().add(z3.Not(tv))
+            a = [] if self.quick_infeasible(sa.pc) else self.exec_block(node.body, sa)
+            b = [] if self.quick_infeasible(sb.pc) else self.exec_block(node.orelse, sb)
             return a + b
         return self.lift(self.ev_bool(node.test, st), k)
+
+    def quick_infeasible(self, pc) -> bool:
+        """Cheap pruning: the quantifier-free part of the path condition is already contradictory.
+        (Only ever removes paths whose condition is unsatisfiable; quantified facts are ignored, so nothing is lost.)"""
+        if self.spec_mode:
+            return False
+        qf = [f for f in pc if not _has_quant(f)]
+        sl = z3.Solver()
+        sl.set('timeout', 300)
+        for ax in self.th.axioms(lean=True):
+            sl.add(ax)
+        for f in qf:
+            sl.add(f)
+        return sl.check() == z3.unsat
 
     def st_Assert(self, node, st):
         def k(c, s):
